@@ -21,7 +21,7 @@ fn dirpriv_is_identifier_name() {
 
 // U-lowerfirst (complete over ASCII names of length <= 3, plus a 2-byte first letter): only the first letter is lower-cased,
 // everything else is kept, and no input panics (C04 name rule, C08 totality).
-#[kani::proof] #[kani::unwind(6)] #[kani::stub(std::ptr::drop_in_place, no_drop)] #[kani::stub(core::ptr::drop_glue, no_glue)]
+#[kani::proof] #[kani::unwind(6)] #[kani::stub(std::ptr::drop_in_place, no_drop)] #[kani::stub(core::ptr::drop_glue, no_glue)] #[kani::stub(std::vec::Vec::extend_from_slice, extend_from_slice_model)]
 fn dirpriv_lowercase_first_letter() {
     let a = any_ascii_atom::<3>();
     let b = a.as_bytes();
@@ -35,7 +35,7 @@ fn dirpriv_lowercase_first_letter() {
     kani::cover!(b.len() == 3 && b[1] >= b'A' && b[1] <= b'Z', "inner capital reachable");
     std::mem::forget(r);
 }
-#[kani::proof] #[kani::unwind(8)] #[kani::stub(std::ptr::drop_in_place, no_drop)] #[kani::stub(core::ptr::drop_glue, no_glue)]
+#[kani::proof] #[kani::unwind(8)] #[kani::stub(std::ptr::drop_in_place, no_drop)] #[kani::stub(core::ptr::drop_glue, no_glue)] #[kani::stub(std::vec::Vec::extend_from_slice, extend_from_slice_model)]
 fn dirpriv_lowercase_first_letter_multibyte() {
     let r = lowercase_first_letter("\u{e9}L");
     assert!(r.as_bytes() == "\u{e9}L".as_bytes(), "C08: a name starting with a multi-byte character is handled (no panic), rest kept");
